@@ -50,9 +50,9 @@ theorem pb_move {s : PState} (h : PB s) {t : Nat} {p : PPc} (h1 : ∀ x, s.pc t 
     (log' : List PEv) (gt : tookOf log' = tookOf s.log) (ge : execOf log' = execOf s.log)
     (q' : List Task) (nacc' : Nat) (hfifo : tookOf log' ++ q' = acceptedOf log')
     (hserial : (acceptedOf log').map (·.1) = List.range nacc')
-    (toMon' : Mon) (running' : Bool) (prog' : Nat → List POp) :
+    (toMon' : Mon) (running' : Bool) (prog' : Nat → List POp) {gate' : Bool} :
     PB { toMon := toMon', n := s.n, maxq := s.maxq, running := running', q := q', nacc := nacc', pc := upd s.pc t p,
-         prog := prog', log := log' } := by
+         prog := prog', log := log', kind := s.kind, gate := gate' } := by
   have hpc : ∀ w x, upd s.pc t p w = .wExec x ↔ s.pc w = .wExec x := by
     intro w x
     by_cases hw : w = t
@@ -79,9 +79,9 @@ theorem pb_move {s : PState} (h : PB s) {t : Nat} {p : PPc} (h1 : ∀ x, s.pc t 
 
 theorem pb_other {s : PState} (h : PB s) {t : Nat} {p : PPc} (h1 : ∀ x, s.pc t ≠ .wExec x) (h2 : ∀ x, p ≠ .wExec x)
     (evs : List PEv) (hev : ∀ e ∈ evs, e.plain) (log' : List PEv) (hlog : log' = s.log ++ evs)
-    (toMon' : Mon) (running' : Bool) (prog' : Nat → List POp) :
+    (toMon' : Mon) (running' : Bool) (prog' : Nat → List POp) {gate' : Bool} :
     PB { toMon := toMon', n := s.n, maxq := s.maxq, running := running', q := s.q, nacc := s.nacc, pc := upd s.pc t p,
-         prog := prog', log := log' } := by
+         prog := prog', log := log', kind := s.kind, gate := gate' } := by
   subst hlog
   obtain ⟨ga, gt, ge⟩ := ghost_plain hev s.log
   exact pb_move h h1 h2 _ gt ge _ _ (by rw [ga, gt]; exact h.fifo) (by rw [ga]; exact h.serial) _ _ _
@@ -181,7 +181,9 @@ theorem pb_step {s s' : PState} (h : PB s) (hs : PStep s s') : PB s' := by
           have : w ≠ t := by rintro rfl; exact hnt y hw
           rw [upd_other _ _ _ _ this]; exact hw
       · exact Or.inr ⟨t, upd_same _ _ _⟩
-  | exec t x hpc =>
+  | exec t x p g hpc hp =>
+    have hpne : ∀ y, p ≠ .wExec y := by
+      intro y hc; rcases hp with rfl | ⟨rfl, _⟩ <;> cases hc
     have ga : acceptedOf (s.log ++ [.exec t x]) = acceptedOf s.log := by simp [acceptedOf, List.filterMap_append]
     have gt : tookOf (s.log ++ [.exec t x]) = tookOf s.log := by simp [tookOf, List.filterMap_append]
     have ge : execOf (s.log ++ [.exec t x]) = execOf s.log ++ [x] := by simp [execOf, List.filterMap_append]
@@ -193,27 +195,27 @@ theorem pb_step {s s' : PState} (h : PB s) (hs : PStep s s') : PB s' := by
     · intro y hy
       have hy' : y ∈ execOf (s.log ++ [.exec t x]) := hy
       rw [ge, List.mem_append, List.mem_singleton] at hy'
-      show y ∈ tookOf (s.log ++ [.exec t x]) ∧ ∀ w, upd s.pc t .wTest w ≠ .wExec y
+      show y ∈ tookOf (s.log ++ [.exec t x]) ∧ ∀ w, upd s.pc t p w ≠ .wExec y
       rw [gt]
       rcases hy' with hy' | rfl
       · obtain ⟨a, b⟩ := h.execTook y hy'
         refine ⟨a, fun w hw => ?_⟩
         by_cases hwt : w = t
-        · subst hwt; rw [upd_same] at hw; cases hw
+        · subst hwt; rw [upd_same] at hw; exact hpne y hw
         · rw [upd_other _ _ _ _ hwt] at hw; exact b w hw
       · refine ⟨hxt, fun w hw => ?_⟩
         by_cases hwt : w = t
-        · subst hwt; rw [upd_same] at hw; cases hw
+        · subst hwt; rw [upd_same] at hw; exact hpne _ hw
         · rw [upd_other _ _ _ _ hwt] at hw; exact hwt (hxu w hw)
     · intro w y hw
-      have hw' : upd s.pc t .wTest w = .wExec y := hw
-      show y ∈ tookOf (s.log ++ [.exec t x]) ∧ ∀ w', upd s.pc t .wTest w' = .wExec y → w' = w
+      have hw' : upd s.pc t p w = .wExec y := hw
+      show y ∈ tookOf (s.log ++ [.exec t x]) ∧ ∀ w', upd s.pc t p w' = .wExec y → w' = w
       rw [gt]
-      have hwt : w ≠ t := by rintro rfl; rw [upd_same] at hw'; cases hw'
+      have hwt : w ≠ t := by rintro rfl; rw [upd_same] at hw'; exact hpne y hw'
       rw [upd_other _ _ _ _ hwt] at hw'
       obtain ⟨a, b⟩ := h.pend w y hw'
       refine ⟨a, fun w' hw'' => ?_⟩
-      have hw't : w' ≠ t := by rintro rfl; rw [upd_same] at hw''; cases hw''
+      have hw't : w' ≠ t := by rintro rfl; rw [upd_same] at hw''; exact hpne y hw''
       rw [upd_other _ _ _ _ hw't] at hw''; exact b w' hw''
     · show (execOf (s.log ++ [.exec t x])).Nodup
       rw [ge]
@@ -223,12 +225,17 @@ theorem pb_step {s s' : PState} (h : PB s) (hs : PStep s s') : PB s' := by
     · intro y hy
       have hy' : y ∈ tookOf (s.log ++ [.exec t x]) := hy
       rw [gt] at hy'
-      show y ∈ execOf (s.log ++ [.exec t x]) ∨ ∃ w, upd s.pc t .wTest w = .wExec y
+      show y ∈ execOf (s.log ++ [.exec t x]) ∨ ∃ w, upd s.pc t p w = .wExec y
       rw [ge]
       rcases h.tookDone y hy' with a | ⟨w, hw⟩
       · exact Or.inl (by simp [a])
       · by_cases hwt : w = t
         · subst hwt; rw [hpc] at hw; cases hw; exact Or.inl (by simp)
         · exact Or.inr ⟨w, by rw [upd_other _ _ _ _ hwt]; exact hw⟩
+
+  | pass t x hpc hg =>
+    exact pb_other h (by rw [hpc]; intro y hc; cases hc) (by intro y hc; cases hc) [.pass t x] (by simp [PEv.plain]) _ rfl _ _ _
+  | openGate t rest hpc hp =>
+    exact pb_other h (by rw [hpc]; intro y hc; cases hc) (by intro y hc; cases hc) [.openRet t] (by simp [PEv.plain]) _ rfl _ _ _
 
 end MuduoVerif.Monitor
